@@ -10,6 +10,8 @@
 //   DCLONE <mode> <hex>    source = Message::factory(ctx, bytes, no_chksum, permissive); mode = s|p [n]
 //   DCOPY  <mode> <hex>
 //   DMOVE  <mode> <hex>
+//   RENDER <fnum> <hex text>   print() of a fresh field (API-built float with precision when marked): "OK <hex>"
+//   SCOPY / SMOVE <msgspec>, DSCOPY / DSMOVE <mode> <hex>: as COPY / MOVE into a SHALLOW-constructed target
 // Result line: stages separated by " | "; the line stops at the first failing stage (EXC ...).
 //   source fails                          -> "<EXC ...>"
 //   CLONE/DCLONE: OK <dump src> | OK <dump clone> | <enc clone> | <enc src>
@@ -247,8 +249,24 @@ void run_case(const std::string& line, std::ostream& os)
 	std::istringstream is(line);
 	std::string op, a1, a2;
 	is >> op >> a1 >> a2;
+	if (op == "RENDER")
+	{
+		// RENDER <fnum> <hex text>: print() of a fresh field made by make_field (no copy involved)
+		std::string h;
+		if (stage(os, [&] {
+				std::unique_ptr<BaseField> bf(make_field(static_cast<unsigned short>(atoi(a1.c_str())), unhex(a2)));
+				if (!bf) throw std::runtime_error("no such field");
+				h = tohex(codec_meta::printed(bf.get())); }))
+			os << "OK " << h;
+		return;
+	}
 	const bool decoded(!op.empty() && op[0] == 'D');
-	const std::string what(decoded ? op.substr(1) : op);
+	std::string what(decoded ? op.substr(1) : op);
+	// SCOPY / SMOVE: the target is SHALLOW-constructed (create_msg(type, false)): its body has no
+	// pre-created group objects, so move_legal takes its "*to += group" branch
+	const bool shallow(what == "SCOPY" || what == "SMOVE");
+	if (shallow)
+		what = what.substr(1);
 	if (what != "CLONE" && what != "COPY" && what != "MOVE")
 	{
 		os << "BAD-CASE unknown op";
@@ -279,7 +297,7 @@ void run_case(const std::string& line, std::ostream& os)
 
 	unsigned nb(0), nh(0), nt(0);
 	if (!stage(os, [&] {
-			tgt.reset(mctx().create_msg(src->get_msgtype().c_str()));
+			tgt.reset(mctx().create_msg(src->get_msgtype().c_str(), !shallow));
 			if (what == "COPY")
 			{
 				nb = src->copy_legal(tgt.get());
